@@ -32,6 +32,7 @@ struct PElem {
     PElem& operator=(const PElem& o) { vsched::access(&o, false); vsched::access(this, true); note(&o, false); note(this, true); key = o.key; id = o.id; return *this; }
     ~PElem() { delete heap; --g_live; }
 };
+VF_DECOY_ORDER(PElem, key)
 struct PLess { bool operator()(const PElem& a, const PElem& b) const { vsched::access(&a, false); vsched::access(&b, false); return a.key < b.key; } };
 
 static void one(Out& out, const std::vector<long long>& keys, bool stable, int mwmsa, int threads, int oversampling, uint64_t seed, int strat, int pct_depth) {
